@@ -11,11 +11,31 @@ const MaxParenDepth = 1000
 // 超えている場合はパースを始める前にエラーを返します (式は行をまたがないので行ごとに数える)。
 func CheckNesting(src []byte) error {
 	depth, line := 0, 1
+	var quote byte   // 文字列リテラルの中なら、その開始の引用符 (行末で必ず解除する)
+	comment := false // ';' か '#' 以降は行末までコメント
 	for _, b := range src {
+		if b == '\n' || b == '\r' {
+			quote, comment = 0, false
+		}
+		if comment {
+			continue // コメントの中の括弧は式ではない
+		}
+		if quote != 0 {
+			if b == quote {
+				quote = 0
+			}
+			continue // 文字列の中の括弧は式ではない
+		}
 		switch b {
-		case '\n':
+		case '"', '\'':
+			quote = b
+		case ';', '#':
+			comment = true
+		case '\n', '\r':
 			depth = 0
-			line++
+			if b == '\n' {
+				line++
+			}
 		case '(':
 			depth++
 			if depth > MaxParenDepth {
